@@ -358,6 +358,13 @@ def run(chk, tier):
             else:
                 hbad("R07.1", name + "|binds the element", "%s must bind the loop variable to the current element, binds %s" % (name, evs), b.file)
     chk.floor("R07.1", "loop functions", len(LOOPS), 8)
+    # ---------------- R07.8 what a loop variable shadows
+    chk.rule("R07.8", "the loop variable shadows EVERY outer binding of its name: when the VM resolves an identifier, bound variables (loop variables are bound as such in the "
+                      "body's child context) are consulted before stored programs, and a stored program is consulted only when no variable has the name")
+    import C12 as _c12
+    pb_ = F.body(_c12.POP)
+    pq_ = mirq.BodyQ(pb_)
+    _c12.only_via_miss(chk, "R07.8", pq_, pq_.call_sites(r"Interpreter::<'a>::get_param_by_name$"), pq_.call_sites(r"CelContext::get_program$"), 0, (), "pop|loop variable before stored program")
     chk.analysed = {"loop_functions": sorted(LOOPS), "entry_functions": sorted(ENTRY)}
     return chk.finish(
         "Skeleton, polarity, private-copy and order clauses of the six comprehension macros extracted from MIR: expression trees of call operands, dominance "
